@@ -1,5 +1,124 @@
-(* STUB: Impl model of srat.rs -- to be written *)
-From Coq Require Import NArith List.
-From ACPI Require Import Lib.Bytes Lib.Sx Lib.Machine Impl.Checksum Impl.Table Impl.Fields Impl.Run.
+(* Impl model of srat.rs *)
+From Coq Require Import NArith List Bool.
+From ACPI Require Import Lib.Bytes Lib.Sx Lib.Machine Impl.Checksum Impl.Table Impl.Fields Impl.Run Impl.Madt.
 Import ListNotations.
-Definition srat_case (md : mode) (c : sx) : list ev := [EvPanic].
+Open Scope N_scope.
+
+(* ---- MemoryAffinity { proximity_domain: u32, base_address: u64, length: u64, flags: u32 } ---- *)
+Record memaff := { ma_pd : N; ma_base : N; ma_len : N; ma_flags : N }.
+
+Definition memaff_new (pd base len : N) : memaff := {| ma_pd := pd; ma_base := base; ma_len := len; ma_flags := 0 |}.
+
+Definition memaff_or (m : memaff) (bits : N) : memaff :=
+  {| ma_pd := ma_pd m; ma_base := ma_base m; ma_len := ma_len m; ma_flags := N.lor (ma_flags m) bits |}.
+
+(* enabled / hotpluggable / nonvolatile: self.flags |= 1 << {0,1,2} *)
+Definition memaff_builder (m : memaff) (o : sx) : option memaff :=
+  match o with
+  | SL [SA 1] => Some (memaff_or m 1)
+  | SL [SA 2] => Some (memaff_or m 2)
+  | SL [SA 3] => Some (memaff_or m 4)
+  | _ => None
+  end.
+
+Fixpoint apply_builders {A} (b : A -> sx -> option A) (x : A) (l : list sx) : option A :=
+  match l with
+  | [] => Some x
+  | o :: r => match b x o with Some x' => apply_builders b x' r | None => None end
+  end.
+
+Definition LOW32 : N := 0xffffffff.
+
+(* the hand-written serialiser, in the order of the sink calls *)
+Definition memaff_bytes (m : memaff) : list N :=
+  b1 1 ++ b1 40 ++ d4 (ma_pd m) ++ w2 0
+  ++ d4 (N.land (ma_base m) LOW32) ++ d4 (N.land (N.shiftr (ma_base m) 32) LOW32)
+  ++ d4 (N.land (ma_len m) LOW32) ++ d4 (N.land (N.shiftr (ma_len m) 32) LOW32)
+  ++ d4 0 ++ d4 (ma_flags m) ++ q8 0.
+
+(* ---- Handle ---- *)
+Inductive handle :=
+| HAcpi (hid uid : list N)
+| HPci (seg bus dev fn : N).
+
+(* handle argument: (0 hid8 uid4) = Handle::Acpi / new_acpi; (1 seg bus dev fn) = the struct literal Handle::Pci {..}
+   (no assertion); (2 seg bus dev fn) = Handle::new_pci (asserts device < 32, function < 8) *)
+Definition sx_handle (x : sx) : option handle :=
+  match x with
+  | SL [SA 0; hid; uid] => do h <- sx_arr 8 hid; do u <- sx_arr 4 uid; Some (HAcpi h u)
+  | SL [SA 1; SA seg; SA bus; SA dev; SA fn] => Some (HPci seg bus dev fn)
+  | SL [SA 2; SA seg; SA bus; SA dev; SA fn] => do _ <- pci_ok dev fn; Some (HPci seg bus dev fn)
+  | _ => None
+  end.
+
+(* fn devfn(device: u8, function: u8) -> u8 { (device << 3) | function }  -- the shift drops the high bits *)
+Definition devfn (dev fn : N) : N := N.lor (cast U8 (N.shiftl dev 3)) fn.
+
+Definition handle_bytes (h : handle) : list N :=
+  match h with
+  | HAcpi hid uid => hid ++ uid ++ d4 0
+  | HPci seg bus dev fn => w2 seg ++ b1 bus ++ b1 (devfn dev fn) ++ d4 0 ++ q8 0
+  end.
+
+(* ---- GenericInitiator { proximity_domain: u32, handle: Handle, flags: u32 } ---- *)
+Record geninit := { gi_pd : N; gi_handle : handle; gi_flags : N }.
+
+Definition geninit_or (g : geninit) (bits : N) : geninit :=
+  {| gi_pd := gi_pd g; gi_handle := gi_handle g; gi_flags := N.lor (gi_flags g) bits |}.
+
+(* enabled / architectural: self.flags |= 1 << {0,1} *)
+Definition geninit_builder (g : geninit) (o : sx) : option geninit :=
+  match o with
+  | SL [SA 1] => Some (geninit_or g 1)
+  | SL [SA 2] => Some (geninit_or g 2)
+  | _ => None
+  end.
+
+Definition geninit_bytes (g : geninit) : list N :=
+  b1 5 ++ b1 32 ++ b1 0 ++ b1 (match gi_handle g with HAcpi _ _ => 0 | HPci _ _ _ _ => 1 end)
+  ++ d4 (gi_pd g) ++ handle_bytes (gi_handle g) ++ d4 (gi_flags g) ++ d4 0.
+
+(* ---- RintcAffinity (packed): 0 type 1 length 2 reserved 3 proximity_domain 4..7 acpi_processor_uid 8 flags 9 clock_domain ---- *)
+Definition rintc_aff_new (uid : list N) (clock : N) : flds :=
+  [F 1 7; F 1 20; F 2 0; F 4 0] ++ fbytes uid ++ [F 4 0; F 4 clock].
+
+Definition rintc_aff_builder (f : flds) (o : sx) : option flds :=
+  match o with
+  | SL [SA 1] => Some (f_or f 8 1)           (* enabled: flags = flags | FLAGS_ENABLED *)
+  | SL [SA 2; SA pd] => Some (fset f 3 pd)   (* proximity_domain(pd) *)
+  | _ => None
+  end.
+
+(* ---- table ---- *)
+(* SRAT::new: header { "SRAT", length = 36 + 12, revision 1 }; cksum.append(header.as_bytes()); cksum.add(1);
+   to_aml_bytes: header, sink.dword(1), sink.qword(0), structures *)
+Definition srat_new (c : sx) : option tbl :=
+  match c with
+  | SL [o; t; r] =>
+      do h <- sx_hdr [83; 82; 65; 84] 1 o t r;          (* "SRAT" *)
+      Some (tbl_new KSrat h [])
+  | _ => None
+  end.
+
+(* add_*: update_header(T::len() as u32, st.u8sum()): delete(old_len), append(new_len), checksum.add(sum).
+   MemoryAffinity::len() = 40 and GenericInitiator::len() = 32 are hand-written; RintcAffinity::len() = size_of::<Self>() = 20 *)
+Definition srat_addition (s : tbl) (o : sx) : option addition :=
+  match o with
+  | SL [SA 1; SA pd; SA base; SA len; SL bs] =>
+      do m <- apply_builders memaff_builder (memaff_new pd base len) bs;
+      Some {| a_style := SumAdd; a_claimed := 40; a_bytes := memaff_bytes m; a_returns := false; a_flag := t_flag s |}
+  | SL [SA 2; SA pd; h; SL bs] =>
+      do hd <- sx_handle h;
+      do g <- apply_builders geninit_builder {| gi_pd := pd; gi_handle := hd; gi_flags := 0 |} bs;
+      Some {| a_style := SumAdd; a_claimed := 32; a_bytes := geninit_bytes g; a_returns := false; a_flag := t_flag s |}
+  | SL [SA 3; uid; SA clock; SL bs] =>
+      do u <- sx_arr 4 uid;
+      do f <- apply_builders rintc_aff_builder (rintc_aff_new u clock) bs;
+      Some {| a_style := SumAdd; a_claimed := 20; a_bytes := ser_flds f; a_returns := false; a_flag := t_flag s |}
+  | _ => None
+  end.
+
+Definition srat_step : mode -> tbl -> sx -> option (tbl * list ev) := add_step srat_addition.
+
+Definition srat_case (md : mode) (c : sx) : list ev :=
+  run_history (fun s => Some (tbl_image s)) (srat_step md) srat_new c.
